@@ -725,7 +725,7 @@ func (h *Handler) handlePostIndexAttrDiff(w http.ResponseWriter, r *http.Request
 
 	// Encode response.
 	if err := json.NewEncoder(w).Encode(postIndexAttrDiffResponse{
-		Attrs: attrs,
+		Attrs: encodeAttrDiff(attrs),
 	}); err != nil {
 		h.logger.Printf("response encoding error: %s", err)
 	}
@@ -737,6 +737,43 @@ type postIndexAttrDiffRequest struct {
 
 type postIndexAttrDiffResponse struct {
 	Attrs map[uint64]map[string]interface{} `json:"attrs"`
+}
+
+// attrDiffFloat is a float attribute value in an attr diff response. JSON has a
+// single number type, so a float is always rendered with a fraction or an
+// exponent; the receiving node (InternalClient.ColumnAttrDiff / RowAttrDiff)
+// takes every other number for an integer attribute.
+type attrDiffFloat float64
+
+// MarshalJSON implements json.Marshaler.
+func (f attrDiffFloat) MarshalJSON() ([]byte, error) {
+	v := float64(f)
+	if math.IsNaN(v) || math.IsInf(v, 0) {
+		return nil, fmt.Errorf("unsupported attribute value: %v", v)
+	}
+	b := strconv.AppendFloat(nil, v, 'g', -1, 64)
+	if !strings.ContainsAny(string(b), ".eE") {
+		b = append(b, '.', '0')
+	}
+	return b, nil
+}
+
+// encodeAttrDiff returns a copy of attrs whose float values keep their type
+// when the response is encoded as JSON.
+func encodeAttrDiff(attrs map[uint64]map[string]interface{}) map[uint64]map[string]interface{} {
+	other := make(map[uint64]map[string]interface{}, len(attrs))
+	for id, m := range attrs {
+		o := make(map[string]interface{}, len(m))
+		for k, v := range m {
+			if f, ok := v.(float64); ok {
+				o[k] = attrDiffFloat(f)
+			} else {
+				o[k] = v
+			}
+		}
+		other[id] = o
+	}
+	return other
 }
 
 // handlePostField handles POST /field request.
@@ -959,7 +996,7 @@ func (h *Handler) handlePostFieldAttrDiff(w http.ResponseWriter, r *http.Request
 
 	// Encode response.
 	if err := json.NewEncoder(w).Encode(postFieldAttrDiffResponse{
-		Attrs: attrs,
+		Attrs: encodeAttrDiff(attrs),
 	}); err != nil {
 		h.logger.Printf("response encoding error: %s", err)
 	}
